@@ -601,6 +601,15 @@ class SymEx:
             if is_num(a) and is_num(b):
                 return NUM(min(a[1], b[1]) if last == 'min' else max(a[1], b[1]))
             return APP('i' + last, a, b)
+        if name.endswith(('<impl *mut T>::write', 'std::ptr::write', 'core::ptr::write')) and len(args) == 2:
+            tgt = args[0]
+            v = self.deep(st, args[1]) if args[1][0] != 'ref' else args[1]
+            if tgt[0] == 'ref':
+                base = st.frames[tgt[1]].get(tgt[2])
+                st.frames[tgt[1]][tgt[2]] = self._set_path(base, list(tgt[3]), v) if tgt[3] else v
+            else:
+                st.effects.append((tgt, v))
+            return UNIT
         if name.endswith('UnsafeCell::<T>::get') or name.endswith('UnsafeCell::<T>::raw_get'):
             return args[0]          # pointer to the cell's content == the cell (transparent)
         return None
